@@ -11,6 +11,7 @@ import HaqqModel.Driver.C06
 import HaqqModel.Driver.C18
 import HaqqModel.Driver.C14
 import HaqqModel.Driver.C07
+import HaqqModel.Driver.C08
 
 open Haqq.Driver
 
@@ -31,6 +32,7 @@ def stepLine (st : All) (line : String) : All × String :=
   | "C18" :: rest => (st, C18.step rest)
   | "C14" :: rest => (st, C14.step rest)
   | "C07" :: rest => (st, C07.step rest)
+  | "C08" :: rest => (st, C08.step rest)
   | "C13" :: rest => let (s, o) := C13.step st.c13 rest; ({ st with c13 := s }, o)
   | _ => (st, "bad-op")
 
